@@ -275,11 +275,30 @@ def numeric_type_cases(ctx):
     ctx.count("builder requests written with int arguments: same geometry as with floats", n_ok)
 
 
+def translated_builders(ctx):
+    """the three plain builders translated from source on every run (harness/gen/builders_translate.py, fail-closed) and proved equal to
+    Model/Builders.v: the geometry theorems (and the parking theorem C08 builds on) hold of the builders as written"""
+    from gen import builders_translate
+    from vcommon import paths
+    name = "single_col_zone.get_spec, stdlib.spec.single_zone_spec and two_col_zone.get_spec are inside the translated fragment (generated model Gen_C14_src.v)"
+    try:
+        body = builders_translate.generate(paths.REPO)
+    except Exception as e:
+        ctx.obligation(name, False, f"{type(e).__name__}: {e}"[:300])
+        return
+    ctx.obligation(name, True)
+    ok, log = coqrun.compile_lemma_file(ctx.bdir, "Gen_C14_src", body)
+    closed = log.count("Closed under the global context")
+    ctx.obligation("the translated builders equal the hand models for every size and spacing (gen_single_col_spec_eq, gen_deprecated_single_zone_spec_eq, "
+                   "gen_two_col_spec_eq), closed under the global context", ok and closed >= 5, log[-600:])
+
+
 def run(ctx):
     warnings.simplefilter("ignore")
     from bloqade.shuttle.stdlib.layouts import single_col_zone, two_col_zone
     from bloqade.shuttle.stdlib.layouts.gemini import base_spec, logical
     from bloqade.shuttle.stdlib import spec as old_spec
+    translated_builders(ctx)
     ctx.rule = ("each builder for all num_x, num_y up to the tier's bound (quick 4, thorough 7) x spacings {0.5,1,2,2.5,10} x gate spacings "
                 "{0.5,2,2.5}: every zone (spacing tuples, initial positions, parent and index lists of views), capability sets and constants "
                 "compared line by line with the Coq builder models; the two Gemini specs compared in full; documented geometry evaluated "
